@@ -7,7 +7,30 @@
     X(size_t, g_txstate_n) X(int, g_txstate_which) X(int, g_txstate_rc) \
     X(size_t, g_state_calls) X(size_t, g_hook_n) X(int, g_in_gap) \
     X(size_t, g_clear_n) X(size_t, g_consol_n) X(size_t, g_create_n) X(size_t, g_consol_len) X(int64_t, g_pcl_value) X(size_t, g_hdrproc_n) X(size_t, g_hdr_in_len) \
-    X(const unsigned char *, g_hook_ptr) X(size_t, g_hook_len) X(const void *, g_hook_tx) X(int, g_hook_rc) X(int, g_hook_last)
+    X(const unsigned char *, g_hook_ptr) X(size_t, g_hook_len) X(const void *, g_hook_tx) X(int, g_hook_rc) X(int, g_hook_last) \
+    GHOSTS_SM_RBD(X)
+/* Unit htp_connp_RES_BODY_DETERMINE (contracts/sm_rbd.h).
+ * Prophecy ghosts (havocked once, never assigned; the stubs of REPLACED callees answer with them):
+ *   g_rbd_hdr_cl/te/ct/exp  what htp_table_get_c answers for "content-length" / "transfer-encoding" / "content-type" (response headers)
+ *                           and "expect" (request headers); NULL = header absent
+ *   g_rbd_res_tbl/req_tbl   the two header tables of the transaction (compared only, never dereferenced)
+ *   g_rbd_clv               what htp_parse_content_length(C-L value) answers (deterministic: same answer at both call sites)
+ *   g_rbd_te_idx            bstr_index_of_c_nocasenorzero(T-E value, "chunked");  g_rbd_te_cmp  bstr_cmp_c_nocase(T-E value, "chunked")
+ *   g_rbd_exp_cmp           bstr_cmp_c_nocase(Expect value, "100-continue");      g_rbd_mp_idx  bstr_index_of_c_nocase(C-T value, "multipart/byteranges")
+ *   g_rbd_dup_fail          bstr_dup_lower(C-T value) fails (returns NULL);       g_rbd_hn      htp_table_size(response headers)
+ * Log ghosts (0 on entry, assigned by stubs only):
+ *   g_rbd_getidx_n          number of htp_table_get_index calls (the stub insists on index == this counter: 0,1,2,... each once)
+ *   g_rbd_relname_n / g_rbd_relval_n   number of bstr_free calls on the name / value of the header fetched last
+ *   g_rbd_last_h, g_rbd_last_name / g_rbd_last_value   the header fetched last and its name / value pointers (compared only; ASSIGNED by the stub through
+ *                           __CPROVER_pointer_equals: a ghost pointer that is merely assumed equal to a fresh object makes the second call infeasible)
+ *   g_rbd_hfree_n           number of free() calls on the header fetched last
+ *   g_rbd_tclear_n          number of htp_table_clear calls */
+#define GHOSTS_SM_RBD(X) \
+    X(void *, g_rbd_hdr_cl) X(void *, g_rbd_hdr_te) X(void *, g_rbd_hdr_ct) X(void *, g_rbd_hdr_exp) \
+    X(const void *, g_rbd_res_tbl) X(const void *, g_rbd_req_tbl) \
+    X(int64_t, g_rbd_clv) X(int, g_rbd_te_idx) X(int, g_rbd_te_cmp) X(int, g_rbd_exp_cmp) X(int, g_rbd_mp_idx) X(int, g_rbd_dup_fail) X(size_t, g_rbd_hn) \
+    X(size_t, g_rbd_getidx_n) X(size_t, g_rbd_relname_n) X(size_t, g_rbd_relval_n) X(void *, g_rbd_last_name) X(void *, g_rbd_last_value) X(size_t, g_rbd_tclear_n) \
+    X(void *, g_rbd_last_h) X(size_t, g_rbd_hfree_n)
 /* largest stream offset / message length for which the int64 counters provably do not wrap in one call */
 #define OFFMAX ((int64_t) 1 << 62)
 /* request-side state set (function addresses; used by the driver's loop invariant) */
